@@ -46,6 +46,10 @@ def _machine():
         for m in MODES:
             for n in NAMES:
                 h.machine.events.add_handler('mode_%s_%s' % (m, n), _mk(m, n), priority=100000)
+            # a request made by event reaches the mode when the event is dispatched, not when it is posted:
+            # it is logged by these handlers, which run right before the mode's own start/stop handler
+            for kind in ('start', 'stop'):
+                h.machine.events.add_handler('vm_%s_%s' % (kind, m), _mk_req(m, kind), priority=100000)
         # one warm-up cycle so that lazily created registrations are part of the baseline
         for m in ('A', 'B', 'C', 'D'):
             h.machine.events.post('vm_start_' + m)
@@ -73,6 +77,17 @@ def _mk(m, n):
     return hnd
 
 
+def _mk_req(m, kind):
+    def hnd(**kwargs):
+        run = _H['sink'][0]
+        if run is not None:
+            rec = {'op': 'req', 'm': m, 'kind': kind}
+            if kind == 'start':
+                rec['alt'] = 'mode_priority' in kwargs
+            run.ev.append(rec)
+    return hnd
+
+
 def digest(machine):
     """Everything the statement lists: event handlers, switch handlers, delays, mode bookkeeping."""
     out = []
@@ -80,7 +95,7 @@ def digest(machine):
         for h in hs:
             cb = h.callback
             name = getattr(cb, '__qualname__', None) or getattr(getattr(cb, 'func', None), '__qualname__', repr(type(cb)))
-            if name.startswith('_mk.'):
+            if name.startswith('_mk.') or name.startswith('_mk_req.'):
                 continue
             owner = getattr(getattr(cb, '__self__', None), 'name', '')
             out.append(('ev', ev, name, str(owner), h.priority, str(h.condition), tuple(sorted(k for k in h.kwargs))))
@@ -139,11 +154,12 @@ class ModeRun:
             rec['alt'] = alt
             if alt:     # a start that carries an explicit priority (configured priority + 7)
                 kw['mode_priority'] = PRIO[m] + 7
-        self.ev.append(rec)
         via = self.via if self.via != 'mixed' else self.rnd.choice(['event', 'direct'])
         if via == 'event':
-            self.m.events.post('vm_%s_%s' % (kind, m), **kw)
-        elif kind == 'start':
+            self.m.events.post('vm_%s_%s' % (kind, m), **kw)     # logged when dispatched (see _mk_req)
+            return
+        self.ev.append(rec)
+        if kind == 'start':
             self.m.modes[m].start(**kw)
         else:
             self.m.modes[m].stop()
